@@ -630,7 +630,17 @@ func c01Framing(c *core.Ctx) {
 						pred := ph.Block().Preds[i]
 						last := pred.Instrs[len(pred.Instrs)-1]
 						endPar := fn.Params[len(fn.Params)-1]
-						if core.GuardedBy(last, func(f core.Fact) bool { return f.Op == token.ILLEGAL && !f.Neg && f.X == ssa.Value(endPar) }) {
+						if core.GuardedBy(last, func(f core.Fact) bool {
+							if f.Op == token.ILLEGAL && !f.Neg && f.X == ssa.Value(endPar) {
+								return true
+							}
+							// negating a zero size is harmless (-0 == 0)
+							if k, isC := core.ConstInt(f.Y); isC && k == 0 && f.Op == token.EQL {
+								_, isLen := lenArg(stripNum(f.X))
+								return isLen
+							}
+							return false
+						}) {
 							okNeg = true
 						}
 					} else {
